@@ -21,7 +21,7 @@ RULE = (
     "block by block: hit counts sum to (N-maxdelay)*nchans and equal the oracle's counts. timeseries: "
     "TimeSeries.fold vs the same oracle. train: strictly periodic dyadic pulse train occupies one bin in every "
     "sub-integration. Samples within 1e-7 of a phase/sub-integration/sub-band boundary are ambiguous: such cases only "
-    "get the conservation and gulp-invariance checks. Non-trivial = >=2 blocks, >=2 occupied bins, not ambiguous."
+    "get the conservation and gulp-invariance checks. TimeSeries: 0-2 further trial periods are folded on the same object; filterbank: the reader may have been used before and is folded twice; cubes handed out earlier must not change. Non-trivial = >=2 blocks, >=2 occupied bins, not ambiguous."
 )
 ASSUMPTIONS = [
     "whole-file folds only (the API passes header.nsamples as the total); non-negative delays (descending band)",
@@ -127,7 +127,7 @@ def strat_fb(draw, tier):
     gulp = draw(st.one_of(st.integers(1, N + 5), st.integers(1, max(2, N // 3)), st.integers(1, 2 * md + 1)))
     return {"layout": lay, "nbins": nbins, "nints": nints, "nbands": nbands, "ratio": ratio, "accel": accel,
             "tsamp": draw(st.sampled_from([2.0**-10, 2.0**-10, 64e-6, 1e-3, 0.000327])),
-            "md_target": md, "gulp": gulp, "fch1": draw(st.sampled_from([1400.0, 800.0])), "prior": draw(vs.prior_use(N)),
+            "md_target": md, "gulp": gulp, "fch1": draw(st.sampled_from([1400.0, 800.0])), "prior": draw(vs.prior_use(N)), "again": draw(st.booleans()),
             "foff": -draw(st.sampled_from([1.0, 4.0, 10.0]))}
 
 
@@ -158,20 +158,29 @@ def check_fb(case, ctx):
     ctxt = (f"N={N} nchans={nchans} nbits={lay['nbits']} split={lay['split']} nbins={nbins} nints={nints} nbands={nbands} "
             f"tsamp={tsamp!r} period/tsamp={case['ratio']!r} accel={accel!r} dm={dm!r} maxdelay={md} gulp={case['gulp']}")
 
-    def run(gulp):
+    def run(gulp, reader=None):
         with warnings.catch_warnings():
             warnings.simplefilter("ignore")
             try:
-                return FilReader(paths).fold(period, dm, accel=accel, nbins=nbins, nints=nints, nbands=nbands,
-                                             gulp=gulp, quiet=True, description="v")
+                return (reader or FilReader(paths)).fold(period, dm, accel=accel, nbins=nbins, nints=nints, nbands=nbands,
+                                                         gulp=gulp, quiet=True, description="v")
             except Exception as exc:  # noqa: BLE001
                 raise Violation(f"fold:raised:{type(exc).__name__}", f"{ctxt} (gulp={gulp}): {exc!r}") from exc
 
-    cube = run(case["gulp"])
+    cube = run(case["gulp"], rd)  # rd may have been used before (prior_use)
     require(cube.data.shape == (nints, nbands, nbins), "fold:shape", f"{ctxt}: {cube.data.shape}")
     one = run(N + 10)
     if not same_cube(cube.data, one.data):
         raise Violation("fold:gulp-dependent", ctxt)
+    if case.get("again"):
+        # a period search folds the same reader again and again: same answer, and the cube handed out earlier
+        # belongs to the caller
+        first = np.array(cube.data, copy=True)
+        again = run(case["gulp"], rd)
+        if not same_cube(again.data, first):
+            raise Violation("fold:second-fold-on-same-reader-differs", ctxt)
+        if not same_cube(np.asarray(cube.data), first):
+            raise Violation("fold:earlier-cube-modified-by-later-fold", ctxt)
     sums, cnts, amb = fold_oracle(D, delays, tsamp, period, accel, nbins, nints, nbands)
     require(int(cnts.sum()) == (N - md) * nchans, "oracle:self-check")
     labels = [f"{lay['nbits']}bit"]
@@ -264,7 +273,9 @@ def strat_ts(draw):
     nbins = draw(st.integers(2, max(2, min(16, N // (nints * 10)))))
     return {"N": N, "nints": nints, "nbins": nbins, "seed": draw(st.integers(0, 2**31 - 1)),
             "ratio": draw(st.one_of(st.integers(2, 60).map(float), st.floats(2.0, 60.0, allow_nan=False))),
-            "accel": draw(st.one_of(st.just(0.0), st.floats(1.0, 1e5), st.floats(-1e5, -1.0)))}
+            "accel": draw(st.one_of(st.just(0.0), st.floats(1.0, 1e5), st.floats(-1e5, -1.0))),
+            # further trial periods folded on the SAME TimeSeries object with the same cube shape (a period search)
+            "more_ratios": draw(st.lists(st.one_of(st.integers(2, 60).map(float), st.floats(2.0, 60.0, allow_nan=False)), min_size=0, max_size=2))}
 
 
 def check_ts(case, ctx):
@@ -276,21 +287,35 @@ def check_ts(case, ctx):
     hdr = Header(filename="t.tim", data_type="time series", nchans=1, foff=-1.0, fch1=1400.0, nbits=32, tsamp=TSAMP,
                  tstart=55000.0, nsamples=N, dm=12.5)
     ts = TimeSeries(x, hdr)
-    period = case["ratio"] * TSAMP
-    with warnings.catch_warnings():
-        warnings.simplefilter("ignore")
-        try:
-            cube = ts.fold(period, accel=case["accel"], nbins=case["nbins"], nints=case["nints"])
-        except Exception as exc:  # noqa: BLE001
-            raise Violation(f"ts.fold:raised:{type(exc).__name__}", f"{case}: {exc!r}") from exc
-    sums, cnts, amb = fold_oracle(x.reshape(N, 1), np.zeros(1, np.int64), TSAMP, period, case["accel"], case["nbins"], case["nints"], 1)
-    require(cube.data.shape == (case["nints"], 1, case["nbins"]), "ts.fold:shape", f"{cube.data.shape}")
-    if amb:
+    ratios = [case["ratio"]] + list(case.get("more_ratios", []))
+    earlier = []
+    anyamb = False
+    occupied = 0
+    for k, ratio in enumerate(ratios):
+        period = ratio * TSAMP
+        with warnings.catch_warnings():
+            warnings.simplefilter("ignore")
+            try:
+                cube = ts.fold(period, accel=case["accel"], nbins=case["nbins"], nints=case["nints"])
+            except Exception as exc:  # noqa: BLE001
+                raise Violation(f"ts.fold:raised:{type(exc).__name__}", f"{case} fold #{k + 1}: {exc!r}") from exc
+        sums, cnts, amb = fold_oracle(x.reshape(N, 1), np.zeros(1, np.int64), TSAMP, period, case["accel"], case["nbins"], case["nints"], 1)
+        require(cube.data.shape == (case["nints"], 1, case["nbins"]), "ts.fold:shape", f"{cube.data.shape}")
+        if amb:
+            anyamb = True
+        else:
+            if not same_cube(cube.data, cube_from(sums, cnts)):
+                raise Violation("ts.fold:cell-values", f"{case}: fold #{k + 1} on the same TimeSeries (period/tsamp={ratio!r})")
+            require(cube.dm == 12.5 and cube.period == period, "ts.fold:recorded")
+            occupied = max(occupied, int((cnts.sum(axis=(0, 1)) > 0).sum()))
+        for j, (c0, snap) in enumerate(earlier):
+            if not same_cube(np.asarray(c0.data), snap):
+                raise Violation("ts.fold:earlier-cube-modified-by-later-fold", f"{case}: cube of fold #{j + 1} changed when fold #{k + 1} ran")
+        earlier.append((cube, np.array(cube.data, copy=True)))
+    require(np.array_equal(np.asarray(ts.data), x), "ts.fold:input-modified", f"{case}")
+    if anyamb and occupied == 0:
         return Info(False, ("ambiguous",))
-    if not same_cube(cube.data, cube_from(sums, cnts)):
-        raise Violation("ts.fold:cell-values", f"{case}")
-    require(cube.dm == 12.5 and cube.period == period, "ts.fold:recorded")
-    return Info(int((cnts.sum(axis=(0, 1)) > 0).sum()) >= 2, ("ts",))
+    return Info(occupied >= 2, ("ts", f"folds{len(ratios)}"))
 
 
 # ------------------------------------------------------------------ periodic train
